@@ -40,7 +40,7 @@ use lightning::types::payment::{PaymentHash, PaymentPreimage};
 use lightning::util::persist::MonitorName;
 use lightning::util::ser::{ReadableArgs, Writeable};
 use lightning::util::test_channel_signer::TestChannelSigner;
-use lightning::util::test_utils::{TestChainMonitor, TestPersister};
+use lightning::util::test_utils::TestChainMonitor;
 
 use verif_harness::{hex, Rng};
 
